@@ -16,22 +16,23 @@ type BankKnobs struct {
 	MinOps, MaxOps, MaxScopes, MaxDepth                       int
 	WScope, WProvide, WDecorate, WInvoke, WVisualize, WString int
 
-	PAvail    int // pick an entry whose required parameters are all available
-	PExport   int
-	PCallback int
-	PInfo     int
-	PFault    int
-	PPanic    int
-	PRepeat   int // allow a second instance of an already used entry (same code pointer)
-	PDefer    int
-	PRecover  int
-	PDur      int  // function advances the mock clock
-	VisErr    bool // Visualize ops carry the error of the last failed Invoke
-	PVisErr   int
-	PVisAfter int // a Visualize(VisualizeError) op is placed right after an Invoke
-	PDeepFail int // Invoke entries whose direct parameters are provided but not buildable
-	PDeep     int // prefer entries that have parameters (deeper closures)
-	PChain    int // prefer entries that consume an output of the most recently registered constructor
+	PAvail     int // pick an entry whose required parameters are all available
+	PExport    int
+	PCallback  int
+	PInfo      int
+	PInfoShare int
+	PFault     int
+	PPanic     int
+	PRepeat    int // allow a second instance of an already used entry (same code pointer)
+	PDefer     int
+	PRecover   int
+	PDur       int  // function advances the mock clock
+	VisErr     bool // Visualize ops carry the error of the last failed Invoke
+	PVisErr    int
+	PVisAfter  int // a Visualize(VisualizeError) op is placed right after an Invoke
+	PDeepFail  int // Invoke entries whose direct parameters are provided but not buildable
+	PDeep      int // prefer entries that have parameters (deeper closures)
+	PChain     int // prefer entries that consume an output of the most recently registered constructor
 }
 
 func DefaultBankKnobs() BankKnobs {
@@ -179,6 +180,7 @@ func (g *bankGen) decorate(f *Fn) {
 
 func GenBankCase(t *rapid.T, bk BankKnobs) *Case {
 	base := &gen{t: t, k: DefaultKnobs(), m: NewModel(), c: &Case{}, nscope: 1}
+	base.k.PInfoShare = bk.PInfoShare
 	g := &bankGen{gen: base, bk: bk, used: map[int]int{}, lastErr: -1}
 	g.c.Cfg.Defer = g.pct(bk.PDefer, "defer")
 	g.c.Cfg.Recover = g.pct(bk.PRecover, "recover")
@@ -224,6 +226,9 @@ func GenBankCase(t *rapid.T, bk BankKnobs) *Case {
 			}
 			o.CB = g.pct(bk.PCallback, "cb")
 			o.Info = g.pct(bk.PInfo, "info")
+			if o.Info {
+				o.InfoSlot = g.infoSlot()
+			}
 			op := Op{K: OpProvide, S: s, F: f}
 			if o.Export || o.CB || o.Info {
 				op.O = o
@@ -245,6 +250,9 @@ func GenBankCase(t *rapid.T, bk BankKnobs) *Case {
 			g.decorate(f)
 			op := Op{K: OpDecorate, S: s, F: f}
 			o := &Opts{CB: g.pct(bk.PCallback, "cb"), Info: g.pct(bk.PInfo, "info")}
+			if o.Info {
+				o.InfoSlot = g.infoSlot()
+			}
 			if o.CB || o.Info {
 				op.O = o
 			}
@@ -283,7 +291,7 @@ func GenBankCase(t *rapid.T, bk BankKnobs) *Case {
 			g.decorate(f)
 			op := Op{K: OpInvoke, S: s, F: f}
 			if g.pct(bk.PInfo, "info") {
-				op.O = &Opts{Info: true}
+				op.O = &Opts{Info: true, InfoSlot: g.infoSlot()}
 			}
 			g.c.Ops = append(g.c.Ops, op)
 			g.lastErr = len(g.c.Ops) - 1
